@@ -109,21 +109,22 @@ func init() {
 		if err != nil {
 			return false, "cannot start the CLI"
 		}
-		if se != "" {
-			return true, fmt.Sprintf("wrote to stderr: %q", truncate(se, 200))
-		}
 		line := strings.TrimSuffix(so, "\n")
 		if !ok {
+			// the diagnostic may go to stdout or stderr
 			if exit != 1 {
 				return true, fmt.Sprintf("the library rejects this invocation but the CLI exited %d with %q", exit, truncate(so, 200))
 			}
 			if resultToken.MatchString(line) {
 				return true, fmt.Sprintf("exit 1 but stdout is a result token: %q", line)
 			}
-			if line == "" {
+			if strings.TrimSpace(so+se) == "" {
 				return true, "exit 1 without a diagnostic"
 			}
 			return false, ""
+		}
+		if se != "" {
+			return true, fmt.Sprintf("successful invocation wrote to stderr: %q", truncate(se, 200))
 		}
 		if exit != 0 {
 			return true, fmt.Sprintf("the library accepts this invocation but the CLI exited %d with %q", exit, truncate(so, 200))
